@@ -68,7 +68,7 @@ func genImportEquals(r *Rng) ieCase {
 		use = []int{0, 2}[r.Intn(2)]
 	}
 	exported := rootKind == 0 && (use == 1 || use == 3) && r.Chance(25)
-	inNamespace := (use == 1 || use == 3) && r.Chance(30) // type-only aliases inside a namespace: known finding K (replayed separately)
+	inNamespace := r.Chance(30)
 	var parts []interface{}
 	var ref strings.Builder
 	if rootKind == 0 {
